@@ -95,7 +95,9 @@ def guards_in(prog, F):
             fields = {"?" + F.local_ty(p.local)}
         base = base_desc(F, p, du)
         for f in fields:
-            out.append(Guard(F, t, f, mut, base))
+            g = Guard(F, t, f, mut, base)
+            g.cell_ty = F.local_ty(p.local)
+            out.append(g)
     return out
 
 
@@ -105,6 +107,9 @@ def overlapping_pairs(prog, F):
     for i, a in enumerate(gs):
         for b in gs[i + 1:]:
             if a.field != b.field or not (a.mutable or b.mutable):
+                continue
+            if getattr(a, "cell_ty", None) != getattr(b, "cell_ty", None):
+                # nested cells (a RefCell stored inside a collection that lives in a RefCell field)
                 continue
             if a.call.bb == b.call.bb:
                 continue
